@@ -147,6 +147,7 @@ def strategy(tier):
                 c["cplx"] = draw(st.booleans())
         c["cond"] = draw(st.sampled_from([10.0, 100.0] if solver == "cg" else [10.0, 100.0, 1000.0]))
         c["scale"] = draw(st.sampled_from(SCALES))
+        c["int_dtype"] = draw(st.sampled_from([False, False, False, True]))   # integer-typed (real) matrix entries
         c["ctor"] = draw(st.booleans())          # pass A to the constructor instead of calling update()
         if solver == "ldl":
             c["hint"] = draw(st.booleans())      # give the (true) hermitian flag
@@ -316,6 +317,18 @@ def check_case(case):
             Ad = make_matrix(kind, n, rng, case["cplx"], max(case["cond"], 100.0) if kind in ("upper", "lower")
                              else case["cond"])
         Ad = Ad * case["scale"]
+        if case.get("int_dtype") and not np.iscomplexobj(Ad) and case["scale"] == 1.0 and solver != "cg":
+            # an integer-typed matrix of the same class: entries rounded to multiples of 1/8, times 8, stored as int64;
+            # used only if it is still a well-conditioned member of the class
+            Ai = np.rint(Ad * 8.0).astype(np.int64)
+            ok = np.linalg.matrix_rank(Ai) == n and np.linalg.cond(Ai.astype(float)) <= 50.0 * case["cond"]
+            if ok and kind in ("spd",):
+                ok = np.linalg.eigvalsh(Ai.astype(float)).min() > 0.5
+            if ok and kind in ("herm_posdiag_indef",):
+                ok = bool(np.all(np.diag(Ai) > 0) and np.linalg.eigvalsh(Ai.astype(float)).min() < -0.5)
+            if ok:
+                Ad = Ai
+                labels.append("A:int_dtype")
         A = to_storage(Ad, storage)
     n = Ad.shape[0]
     cplxA = bool(np.iscomplexobj(Ad))
